@@ -43,6 +43,7 @@ var (
 	goTool  = flag.String("go", "go", "go command used for 'go list -export'")
 	skipPB  = flag.Bool("skip-pb", true, "skip *.pb.go files")
 	verbose = flag.Bool("v", false, "verbose")
+	rtPath  = flag.String("rt", "gorumsim/simrt", "import path of the runtime package that provides Go, Yield, Select, Keys")
 )
 
 const rt = "__simrt"
@@ -274,7 +275,7 @@ func rewriteFile(fset *token.FileSet, f *ast.File, name string, info *types.Info
 		}
 	}
 	if r.usedRT {
-		addImport(f, rt, "gorumsim/simrt")
+		addImport(f, rt, *rtPath)
 		r.changed = true
 	}
 	return r.changed
